@@ -560,5 +560,5 @@ func diffAt(got, want []byte) string {
 }
 
 func TestC01(t *testing.T) {
-	drv.Main(t, drv.Driver{ID: "C01", Gen: gen01, Run: run01, CaseTimeout: 3 * time.Minute})
+	drv.Main(t, drv.Driver{ID: "C01", Gen: gen01, Run: run01, CaseTimeout: 15 * time.Minute})
 }
